@@ -117,8 +117,10 @@ theorem C01_neg_timedelta_text : tdStr (-1000000) = "-1 day, 23:59:59".toList :=
 /-! ### the structural round trip -/
 
 /-- **C01 (structure).** For every type of the fragment int / float / str / bool / Decimal / Path / UUID / date / time /
-datetime (canonical tokens, under the named `StdLaws`) / Optional[·] / list[·] / dict[str, ·] / plain dataclass (no Meta, no aliases, no skip rules, camelCase keys that resolve back to their fields — `RT.PlainCls`, a
-decidable condition on the class), nested to any depth, and every value conforming to it (`RT.Conf`): whatever the dump
+datetime / non-negative timedelta (canonical tokens, under the named `StdLaws`) / Enum (members with pairwise different
+values) / Optional[·] / list[·] / deque[·] / tuple[·, ...] / fixed tuples / dict[str, ·] / plain dataclass (no Meta, no skip
+rules, no catch-all or init=False fields; dump keys — first alias when `all=True`, else camelCase — that resolve back to
+their fields: `RT.PlainCls`, a decidable condition on the class), nested to any depth, and every value conforming to it (`RT.Conf`): whatever the dump
 produces, the JSON image of it (`RT.toJ` = what `json.loads(json.dumps(·))` returns) loads back to exactly the value.
 By induction over the conformance derivation; the dataclass case chains the generated field loop of the dumper into the
 key loop of the loader (`RT.fields_chain`) and the constructor step (`RT.buildFields_ok`). -/
